@@ -62,6 +62,7 @@ type Contract struct {
 	Mode         string               // "" (sequential) | "step" (thread-modular: interference between atomic steps)
 	Atomics      map[int][]*atomicAnn // annotations of the k-th sync/atomic call (source order): ghost updates and asserts
 	Assumes      []*Clause            // "assume[label] E": assumed when the body is verified, NOT checked at call sites (listed in evidence)
+	StepOp       bool                 // "step-op": in thread-modular mode a call to this function is one atomic step (even if it only reads shared state)
 	CallHavoc    []callHavoc          // "call <callee> havoc items": at these call sites the callee is abstracted to a havoc of the items (trusted)
 	AtCall       []atCallGhost        // "at-call <callee-key> lhs := rhs": ghost assignment executed just before matching calls
 	Recv         []*chanClause        // "recv v assume E": every channel receive yields a value v satisfying E
@@ -106,6 +107,7 @@ type lockSpec struct {
 type atCallGhost struct {
 	Callee string
 	GA     *GhostAssign
+	Assert *Clause // "at-call <callee> assert[label] E": obligation just before the call; arg0.. name the call's arguments
 }
 
 type chanClause struct {
@@ -161,7 +163,7 @@ func NewContractDB() *ContractDB {
 }
 
 var clauseKeywords = map[string]bool{"func": true, "props": true, "trusted": true, "inline": true, "noinline": true, "pure-call": true,
-	"requires": true, "ensures": true, "modifies": true, "assume": true, "call": true, "mode": true, "atomic": true, "shared": true, "inv": true, "rely": true, "lock": true, "use!": true, "at-call": true, "recv": true, "send": true, "loop": true, "ghost-exit": true, "ghost-pre": true, "use": true, "ghost": true,
+	"requires": true, "ensures": true, "modifies": true, "assume": true, "call": true, "step-op": true, "mode": true, "atomic": true, "shared": true, "inv": true, "rely": true, "lock": true, "use!": true, "at-call": true, "recv": true, "send": true, "loop": true, "ghost-exit": true, "ghost-pre": true, "use": true, "ghost": true,
 	"pure": true, "ufun": true, "axiom": true, "lemma": true, "callback-field": true, "callback-type": true,
 	"bounded": true, "nopanic": true, "note": true, "end": true, "params": true, "results": true}
 
@@ -410,7 +412,18 @@ func (db *ContractDB) LoadFile(path string, raw bool) error {
 				db.Funcs[cur.Name] = cur
 				db.Order = append(db.Order, cur.Name)
 			} else {
-				name, params, ret, err := splitSig(l.rest)
+				rest := l.rest
+				quoted := ""
+				if strings.HasPrefix(rest, "\"") {
+					if k := strings.Index(rest[1:], "\""); k >= 0 {
+						quoted = rest[1 : 1+k]
+						rest = "Q" + rest[2+k:]
+					}
+				}
+				name, params, ret, err := splitSig(rest)
+				if quoted != "" {
+					name = quoted
+				}
 				if err != nil {
 					db.errf(l, "%v", err)
 					continue
@@ -427,7 +440,7 @@ func (db *ContractDB) LoadFile(path string, raw bool) error {
 					}
 					cur.Results = rs
 				}
-				if !strings.Contains(name, ".") || (pkg != "" && strings.Count(name, ".") == 1 && l.kw == "callback-field") {
+				if quoted == "" && (!strings.Contains(name, ".") || (pkg != "" && strings.Count(name, ".") == 1 && l.kw == "callback-field")) {
 					name = pkg + "." + name
 				}
 				key := strings.TrimPrefix(l.kw, "callback-") + ":" + name
@@ -589,10 +602,20 @@ func (db *ContractDB) LoadFile(path string, raw bool) error {
 				cur.Bounded = n
 			case "use":
 				cur.Uses = append(cur.Uses, strings.Fields(strings.ReplaceAll(l.rest, ",", " "))...)
+			case "step-op":
+				cur.StepOp = true
 			case "at-call":
 				f := strings.SplitN(l.rest, " ", 2)
 				if len(f) < 2 {
 					db.errf(l, "expected: at-call <callee> lhs := rhs")
+					continue
+				}
+				if rest := strings.TrimSpace(f[1]); strings.HasPrefix(rest, "assert") {
+					l2 := l
+					l2.rest = strings.TrimSpace(rest[len("assert"):])
+					if c := mkClause(l2); c != nil {
+						cur.AtCall = append(cur.AtCall, atCallGhost{Callee: f[0], Assert: c})
+					}
 					continue
 				}
 				ga, err := parseGhostAssign(strings.TrimSpace(f[1]))
